@@ -46,5 +46,10 @@ CHECKS['C05'] = {
              {'shards': 16, 'env': {'C05_ENUM_MAXMOUNTS': 3, 'C05_ENUM_SHARDS': 16}},
              {'shards': 16, 'timeout': 2400, 'env': {'C05_ENUM_MAXMOUNTS': 4, 'C05_ENUM_SHARDS': 16}},
              rapid=False, shard_arg=True, env=_ENV1),
+        # round 2: the same enumeration with the well-known empty block d41d8cd9...+0 as the block id
+        unit('enum-empty', 'keepbalance_c05', '^TestVerifC05Enum$',
+             {'shards': 16, 'env': {'C05_ENUM_MAXMOUNTS': 3, 'C05_ENUM_SHARDS': 16, 'C05_ENUM_BLKID': 'empty'}},
+             {'shards': 16, 'timeout': 2400, 'env': {'C05_ENUM_MAXMOUNTS': 3, 'C05_ENUM_SHARDS': 16, 'C05_ENUM_BLKID': 'empty'}},
+             rapid=False, shard_arg=True, env=_ENV1),
     ],
 }
